@@ -16,6 +16,9 @@ package main
 //	                                                 for h: the strings (version strings of the universe and soft
 //	                                                 requirement strings) that Constraint.Match accepts, sorted
 //
+//	C07 defaultkeys U=<universe>   → ok true|false: every declaration has the default classifier and type
+//	                               (harness: !nonDefaultKey, Lean: DefaultKeys — the hypothesis of m1_partial)
+//
 // The real resolver is run on the universe alone (Exec ignores T); the Lean model
 // never looks inside a requirement or version string: it decides soft/hard and
 // "matches" from T. Requirement semantics are C03/C12's business.
